@@ -54,6 +54,10 @@ def _specials():
         ("call1", UNB, v("x1")), ("call0", UNB), ("call2", UNB, v("x1"), v("x2")), ("callkw", UNB, v("x1"), v("x2"), v("x3")),
         ("callkw0", UNB, v("x1")), ("sub1", UNB, v("x1")), ("sub2", UNB, v("x1"), v("x2")), ("lookup", UNB),
         ("sum2", v("x1"), ("call1", UNB, v("x1"))),
+        # conditions that are numbers, not booleans: only the selected branch may be evaluated
+        ("if", v("x1"), ("quot", ("c", 1), v("x1")), ("c", 0)), ("if", v("x1"), ("c", 7), UNB), ("if", v("x1"), UNB, ("c", 7)),
+        ("if", ("sum2", v("x1"), v("x2")), ("floordiv", v("x3"), ("sum2", v("x1"), v("x2"))), v("x3")),
+        ("if", ("c", 0), UNB, v("x1")), ("if", ("c", 2), v("x1"), UNB), ("if", ("c", 0.0), ("quot", v("x1"), ("c", 0)), v("x1")),
         # one-element tuple index: a[(i,)] is not a[i]
         ("sub1t", v("a1", "arr"), v("x1")), ("sum2", ("sub1t", v("a1", "arr"), v("x1")), ("sub1", v("a1", "arr"), v("x1"))),
         ("sub1t", v("a1", "arr"), ("sum2", v("x1"), v("x2"))),
